@@ -76,6 +76,50 @@ def lincomb(ctx, F):
     (ctx.ok if ok else ctx.bad)('C19.R1', site, 'prints (coeff, $idx) of the same element of enumerate(coefficients) taken before sorting' if ok else
                                 'index and coefficient can be mismatched: ' + why, b.span)
     skipping(ctx, F, 'write_lincomb', 'write_float', 'skip_axes')
+    complete(ctx, F, b, R)
+
+
+LENGTH_PRESERVING = {'sort', 'sort_by', 'sort_by_key', 'sort_unstable', 'sort_unstable_by', 'sort_unstable_by_key', 'sort_by_cached_key', 'reverse',
+                     'select_nth_unstable', 'select_nth_unstable_by', 'select_nth_unstable_by_key', 'iter_mut', 'as_mut_slice', 'deref_mut',
+                     'swap', 'rotate_left', 'rotate_right', 'reserve', 'shrink_to_fit', 'index_mut', 'as_mut', 'borrow_mut', 'next', 'into_iter'}
+
+
+def complete(ctx, F, b, R):
+    """The list the printing loop walks holds every coefficient: it is enumerate(coefficients) collected, and between that and the loop it
+    is only permuted (sorted / reversed), never shortened — an element removed here is omitted without the loop ever seeing it, i.e.
+    without an ellipsis."""
+    from ..effects import mut_calls, assigns
+    site = 'write_lincomb#all-elements'
+    lists = [x for bb, t in b.calls() for x in [R.call_expr(t, bb)]
+             if is_call(x, 'Itertools::collect_vec', 'Iterator::collect') and x[2] and is_call(x[2][0], 'Iterator::enumerate') and
+             any(y == ('param', 'coefficients') for y in walk(x[2][0]))]
+    uniq = []
+    for x in lists:
+        if not any(s(x) == s(y) for y in uniq):
+            uniq.append(x)
+    lists = uniq
+    if len(lists) != 1:
+        ctx.undecided('C19.R2', site, 'expected one collected enumerate(coefficients), found %d' % len(lists), b.span)
+        return
+    lst = lists[0]
+    # adaptors between enumerate and collect must not drop elements either
+    inner = lst[2][0][2][0]
+    while is_call(inner, 'Iterator::copied', 'Iterator::cloned', 'ArrayBase::iter', 'IntoIterator::into_iter', 'iter') and inner[2]:
+        inner = inner[2][0]
+    bad = []
+    if inner != ('param', 'coefficients'):
+        bad.append('the enumerated sequence is not the coefficient row itself (%s)' % fmt(s(inner))[:80])
+    for w in mut_calls(b, R):
+        if s(w.target) == s(lst) and w.callee.name not in LENGTH_PRESERVING:
+            bad.append('the list of (index, coefficient) pairs is shortened or rebuilt by %s before it is printed' % w.callee.short)
+    for w in assigns(b, R):
+        if s(w.target) == s(lst):
+            bad.append('the list of (index, coefficient) pairs is replaced before it is printed')
+    if bad:
+        for m_ in sorted(set(bad)):
+            ctx.bad('C19.R2', site, m_, b.span)
+    else:
+        ctx.ok('C19.R2', site, 'the printed list is enumerate(coefficients) collected, only permuted before the loop (no element removed outside the skip test)', b.span)
 
 
 def skipping(ctx, F, q, inner, rng):
@@ -88,6 +132,18 @@ def skipping(ctx, F, q, inner, rng):
     inner_calls = [bb for bb, t in b.calls_to(inner)]
     cont = [(bb, R.call_args(bb)) for bb, t in b.calls_to('RangeBounds::contains')]
     hdrs = [h for h in cfg.loop_headers() if isinstance(h, int)]
+    prev_test = None
+    if len(cont) == 2:
+        # stateless marker: "this position is skipped and the previous one is not" — the second test looks at position - 1
+        def is_prev(a):
+            x = s(a[1])
+            while x[0] == 'field' and x[2] == '0':
+                x = x[1]
+            return x[0] == 'bin' and x[1] in ('Sub', 'SubWithOverflow') and x[3] == ('const', 1)
+        prevs = [c for c in cont if is_prev(c[1])]
+        if len(prevs) == 1:
+            prev_test = prevs[0]
+            cont = [c for c in cont if c is not prev_test]
     if len(inner_calls) != 1 or len(cont) != 1 or not hdrs:
         ctx.undecided('C19.R2', site, 'unexpected shape (inner calls %d, range tests %d)' % (len(inner_calls), len(cont)), b.span)
         return
@@ -142,6 +198,28 @@ def skipping(ctx, F, q, inner, rng):
                 flag_ok = len(inits) == 1 and inits[0][0] not in cfg.loop_of(h) and cfg.dominates(inits[0][0], h) and clears and \
                     all(cfg.dominates(bb, d[0]) or _after_in_iteration(cfg, bb, d[0]) for d in clears)
             ell = is_ell and flag_ok
+            if is_ell and not flag_ok and prev_test is not None:
+                # the marker is written for the first position of every skipped block: whenever the position is 0, and whenever the previous
+                # position is not in the range, the write is unavoidable before the next item (position - 1 of position 0 is not a position:
+                # a range that is unbounded below contains it)
+                from ..mir import edge_literal
+                N = s(ca[1])
+                zero_edges, notprev_edges = [], []
+                for sb_, bl_ in b.live_blocks():
+                    if bl_['term']['k'] != 'switch' or sb_ not in cfg.loop_of(h):
+                        continue
+                    for e_ in cfg.edge_nodes(sb_):
+                        lit_ = edge_literal(b, R, sb_, cfg.edge_label[e_])
+                        if lit_ is None:
+                            continue
+                        if lit_[0] == 'false' and is_call(lit_[1], 'RangeBounds::contains') and s(lit_[1]) == s(('call', 'RangeBounds::contains', tuple(prev_test[1]))):
+                            notprev_edges.append(e_)
+                        for op_, x_, y_ in prune.cmp_facts([lit_]):
+                            if op_ == 'Eq' and s(x_) == N and s(y_) == ('const', 0):
+                                zero_edges.append(e_)
+                same_range = s(prev_test[1][0]) == s(ca[0])
+                forced = lambda e_: not cfg.reaches(e_, h, avoid=[bb])
+                ell = same_range and bool(zero_edges) and bool(notprev_edges) and all(forced(e_) for e_ in zero_edges + notprev_edges)
     # the row and the bias printed together belong to one (row, bias) pair of the zipped iteration
     pair_ok = True
     if q in ('write_poly', 'write_func'):
